@@ -4,63 +4,72 @@ import (
 	"fmt"
 	"html"
 	"strings"
+	. "verif/harness/hlib"
 
 	"github.com/open2b/scriggo"
 	"github.com/open2b/scriggo/builtin"
 )
 
 func htmlEscapeResult(s string) string {
-	return protect(func() string { return "ok:" + hx(string(scriggo.HTMLEscape(s))) })
+	return Protect(func() string { return "ok:" + Hx(string(scriggo.HTMLEscape(s))) })
 }
 
-func htmlEscapeInputs(c *ctx, f func(s string)) {
+func htmlEscapeInputs(c *Ctx, f func(s string)) {
+	if in := c.ReplayInput(); in != nil {
+		if h, ok := in["in"].(string); ok {
+			f(Unhx(h))
+		}
+		return
+	}
 	alpha := []byte{'<', '>', '&', '"', '\'', 'a', 0xC3}
 	maxLen := 5
-	if c.thorough() {
+	if c.Thorough() {
 		maxLen = 7
 	}
-	enumStrings(alpha, maxLen, f)
-	dictTimesSuccessors(f)
-	for i := 0; i < c.n; i++ {
-		f(randString(c.rng, 40))
+	EnumStrings(alpha, maxLen, f)
+	DictTimesSuccessors(f)
+	for i := 0; i < c.N; i++ {
+		f(RandString(c.Rng, 40))
 	}
 }
+
+func main() { Main() }
 
 func init() {
 	// correspondence: scriggo.HTMLEscape vs the Coq model HTMLEscape
-	register("C24-cases", func(c *ctx) {
+	Register("C24-cases", func(c *Ctx) {
 		htmlEscapeInputs(c, func(s string) {
-			c.line("HTMLEscape", hx(s), htmlEscapeResult(s))
-			c.count("cases")
+			c.Line("HTMLEscape", Hx(s), htmlEscapeResult(s))
+			c.Count("cases")
 		})
 	})
 	// sweep: the property itself on the real code, with Go's html.UnescapeString as decoder
-	register("C24-sweep", func(c *ctx) {
+	Register("C24-sweep", func(c *Ctx) {
 		seen := 0
 		htmlEscapeInputs(c, func(s string) {
-			c.count("evaluations")
+			c.Count("evaluations")
 			var out, out2 string
-			if msg := panicText(func() { out = string(scriggo.HTMLEscape(s)); out2 = string(builtin.HtmlEscape(s)) }); msg != "" {
-				c.fail("panic", map[string]string{"fn": "HTMLEscape", "in": hx(s), "panic": msg})
+			if msg := PanicText(func() { out = string(scriggo.HTMLEscape(s)); out2 = string(builtin.HtmlEscape(s)) }); msg != "" {
+				c.Fail("panic", map[string]string{"fn": "HTMLEscape", "in": Hx(s), "panic": msg})
 				return
 			}
 			if why := checkFiveEntities(s, out); why != "" {
-				c.fail("not-five-entities", map[string]string{"fn": "HTMLEscape", "in": hx(s), "out": hx(out), "why": why})
+				c.Fail("not-five-entities", map[string]string{"fn": "HTMLEscape", "in": Hx(s), "out": Hx(out), "why": why})
 				return
 			}
 			if out2 != out {
-				c.fail("builtin-differs", map[string]string{"fn": "builtin.HtmlEscape", "in": hx(s), "out": hx(out2), "want": hx(out)})
+				c.Fail("builtin-differs", map[string]string{"fn": "builtin.HtmlEscape", "in": Hx(s), "out": Hx(out2), "want": Hx(out)})
 				return
 			}
 			if html.UnescapeString(out) != s {
-				c.fail("does-not-decode", map[string]string{"fn": "HTMLEscape", "in": hx(s), "out": hx(out), "decoded": hx(html.UnescapeString(out))})
+				c.Fail("does-not-decode", map[string]string{"fn": "HTMLEscape", "in": Hx(s), "out": Hx(out), "decoded": Hx(html.UnescapeString(out))})
 				return
 			}
 			if out != s {
-				c.count("nontrivial")
+				c.Count("nontrivial")
 				if seen < 3 {
 					seen++
-					c.sample(map[string]string{"in": s, "out": out})
+					c.Sample(map[string]string{"in": s, "out": out})
 				}
 			}
 		})
